@@ -50,4 +50,13 @@ Theorem C11_discovery_for_this_code : forall c h cl m,
 Proof. exact (c11_discovery dec isf H_pgn C10_claim_single_frame). Qed.
 Print Assumptions C11_identity_for_this_code.
 
+(* C16: a fast-packet message with a fresh counter gives the same results after any two histories *)
+Theorem C16_fast_fresh_for_this_code : forall c st1 st2 cl rest,
+  c_pgn cl <> CLAIM -> isf (c_pgn cl) = Ok (Some true) ->
+  Forall (fun cl' => key_of cl' = key_of cl /\ c_win cl' = c_win cl) rest ->
+  zlookup (c_src cl) (srcmap st1) = zlookup (c_src cl) (srcmap st2) ->
+  fresh_first st1 cl -> fresh_first st2 cl ->
+  map snd (run dec isf c st1 (cl :: rest)) = map snd (run dec isf c st2 (cl :: rest)).
+Proof. exact (c16_fast_fresh dec isf H_pgn). Qed.
+
 Eval vm_compute in (length code_dec, length code_disp, length code_fast).
